@@ -19,4 +19,7 @@ func C06(r *core.Run) {
 	tc := rules.DefaultTermConfig()
 	tc.MinLoops, tc.MinSites = termProps["C06"][0], termProps["C06"][1]
 	rules.Termination(r, sc, tc)
+	// a cached reflection object built for one descriptor and handed to a message of another
+	// makes protobuf-go panic ("field descriptor does not belong to this message")
+	rules.MemoKeys(r, []string{"internal/codec", "lib/j5reflect", "lib/j5schema"}, "memo_sites")
 }
